@@ -250,7 +250,7 @@ func (x *Exec) staticCall(fr *Frame, st *State, cc *ssa.CallCommon, callee *ssa.
 	}
 	if x.L.isRepoFunc(callee) {
 		ctr := x.contractFor(callee)
-		if ctr != nil && !ctr.Inline && clo == nil && !(x.specDepth > 0 && len(callee.Blocks) > 0 && len(x.inlineStack) < maxInlineDepth+2 && !ctr.Trusted) {
+		if ctr != nil && !ctr.Inline && clo == nil && !(x.specDepth > 0 && len(callee.Blocks) > 0 && len(x.inlineStack) < maxInlineDepth+2 && !ctr.Trusted && !ctr.Pure) {
 			x.applyContract(fr, st, cc, callee, ctr, args, k)
 			return
 		}
